@@ -430,6 +430,9 @@ def scenarios(ctx):
     for kind in ("tcp", "client", "tty"):
         out += [Scenario([kind], [1, 1, 1], big=(0,), blob=True), Scenario([kind], [2, 1], big=(0,), blob=True), Scenario([kind], [1, 2], big=(1,), blob=True)]
     out += [Scenario(["tcp", "tcp"], [2, 1], big=(0,), blob=True)]
+    # bursts followed by a further message once an EARLIER one has completed while later ones are still queued (r r r d r ...)
+    for kind in ("tcp", "client", "tty"):
+        out += [Scenario([kind], [3, 1]), Scenario([kind], [3, 2]), Scenario([kind], [4, 1]), Scenario([kind], [2, 1, 1])]
     # one peer disconnects somewhere in the schedule while the others have parked and queued sends
     out += [Scenario(["tcp", "tcp"], [2, 1], hangup=1), Scenario(["tcp", "tcp"], [1, 1, 1], hangup=0), Scenario(["tcp", "tcp", "tcp"], [2], hangup=2),
             Scenario(["tcp", "tty"], [2, 1], hangup=0)]
@@ -465,7 +468,12 @@ def run(ctx):
         kinds = set(sc.conns)
         for k in kinds:
             ctx.count(f"{k}_scenarios")
-        n = explore(ctx, sc, max_schedules=4000 if not ctx.thorough else 200000)
+        try:
+            n = explore(ctx, sc, max_schedules=4000 if not ctx.thorough else 200000)
+        except Inconclusive as e:
+            # one scenario that could not be driven (a thread-pool hand-off that never settled) must not hide what the others show
+            ctx.mark_inconclusive(f"scenario {sc.key()}: {e}")
+            n = 0
         if sc.script:
             ctx.count("scripted_interleavings")
         if sc.big:
